@@ -381,7 +381,7 @@ func (r *c12Run) readAll(queries []string, what string) {
 func TestC12Stateful(t *testing.T) {
 	theT = t
 	col := ev.New("C12", "stateful",
-		"rapid state machine: addRecord/setRecord/deleteRecords (types A, AAAA, CNAME, TXT, SOA; up to 18 values per type; ids 0..17) over registered names a.com, b.com, c.com, s.a.com and sub-names x.a.com, y.x.a.com, xs.a.com, interleaved with registrations (incl. names whose parent already holds records of their sub-names), expiry jumps and re-registration, incl. the composite 'a short-lived name expires, a record of its sub-name is added meanwhile, the name is registered again'; CNAME targets drawn from the same universe (chains of 0..4 links, cycles, dangling targets); after every step getRecords, getAllRecords (order by type,id) and resolve (with and without trailing dot) for all names and types and the SOA serial of every token are compared with the record model and the reference resolver (<=2 links must succeed, >=4 or a cycle must fail, exactly 3 is set-valued); non-trivial = history with a record of a sub-name stored under an enclosing token and at least one of {resolve through 1-2 links, limit or duplicate refusal, register refused by conflicting records, deletion of existing records}",
+		"rapid state machine: addRecord/setRecord/deleteRecords (types A, AAAA, CNAME, TXT, SOA; up to 18 values per type; ids 0..17) over registered names a.com, b.com, c.com, s.a.com and sub-names x.a.com, y.x.a.com, xs.a.com, interleaved with registrations (incl. names whose parent already holds records of their sub-names), expiry jumps and re-registration, incl. the composite 'a short-lived name expires, a record of its sub-name is added meanwhile, the name is registered again' and 'a short-lived parent expires under a long-lived child that holds records'; CNAME targets drawn from the same universe (chains of 0..4 links, cycles, dangling targets); after every step getRecords, getAllRecords (order by type,id) and resolve (with and without trailing dot) for all names and types and the SOA serial of every token are compared with the record model and the reference resolver (<=2 links must succeed, >=4 or a cycle must fail, exactly 3 is set-valued); non-trivial = history with a record of a sub-name stored under an enclosing token and at least one of {resolve through 1-2 links, limit or duplicate refusal, register refused by conflicting records, deletion of existing records}",
 		"all record operations are made by the owner of the token (authorisation is C11)", "setRecord onto a value present at another index and suffix-colliding record names are don't-care", "resolve through a dangling CNAME is don't-care")
 	runRapid(t, col, func(rt *rapid.T, h *ev.History) {
 		w := newNnsWorld(1, h)
@@ -397,8 +397,8 @@ func TestC12Stateful(t *testing.T) {
 				r.register(n, 1, hundredYearsSec)
 			}
 		}
-		registrable := []string{"a.com", "b.com", "c.com", "s.a.com", "x.a.com"}
-		recNames := []string{"a.com", "b.com", "c.com", "s.a.com", "x.a.com", "y.x.a.com", "xs.a.com", "z.s.a.com"}
+		registrable := []string{"a.com", "b.com", "c.com", "s.a.com", "x.a.com", "p.com", "k.p.com"}
+		recNames := []string{"a.com", "b.com", "c.com", "s.a.com", "x.a.com", "y.x.a.com", "xs.a.com", "z.s.a.com", "p.com", "k.p.com", "q.k.p.com"}
 		data := map[int64][]string{
 			recA:     {"1.2.3.4", "8.8.8.8", "9.9.9.9"},
 			recAAAA:  {"2a00::1", "2a00::2"},
@@ -408,7 +408,30 @@ func TestC12Stateful(t *testing.T) {
 		steps := rapid.IntRange(2, 30).Draw(rt, "steps")
 		for s := 0; s < steps; s++ {
 			delta := int64(1)
-			switch rapid.SampledFrom([]string{"add", "add", "add", "add", "set", "delete", "register", "fill", "expire", "chain", "reregister-over-records"}).Draw(rt, "kind") {
+			switch rapid.SampledFrom([]string{"add", "add", "add", "add", "set", "delete", "register", "fill", "expire", "chain", "reregister-over-records", "parent-expires"}).Draw(rt, "kind") {
+			case "parent-expires":
+				// a short-lived parent with a long-lived child that holds records (its own and those of a sub-name):
+				// once the parent has expired every read and write path below it must refuse
+				now := int64(r.c.Now())
+				if nm, ok := r.m.names["p.com"]; !ok || nm.exp <= now {
+					r.register("p.com", 1, rapid.SampledFrom([]int64{1000, 2000}).Draw(rt, "parentLife"))
+				}
+				if nm, ok := r.m.names["k.p.com"]; !ok || nm.exp <= int64(r.c.Now()) {
+					r.register("k.p.com", 1, hundredYearsSec)
+				}
+				r.addRecord("k.p.com", recTXT, fmt.Sprintf("child-%d", s), 1)
+				r.addRecord("q.k.p.com", recTXT, fmt.Sprintf("grandchild-%d", s), 1)
+				now = int64(r.c.Now())
+				if nm, ok := r.m.names["p.com"]; ok && nm.exp > now && nm.exp-now < 5_000_000 {
+					d := nm.exp - now + int64(rapid.SampledFrom([]int{-1, 0, 1}).Draw(rt, "offset"))
+					if d < 1 {
+						d = 1
+					}
+					r.c.AddBlock(uint64(d))
+					h.Op("time jumps by %d ms to the expiration boundary of p.com (its child k.p.com lives on)", d)
+					h.Mark("expiry-jump")
+					h.Mark("parent-expired-under-live-child")
+				}
 			case "reregister-over-records":
 				// a short-lived name expires, a record of one of its sub-names is added meanwhile (it lands
 				// under the enclosing live name), then the name is registered again: the conflict rule
